@@ -27,6 +27,7 @@ proved (`database_resource_not_injective`), the collisions are characterised exa
 (`database_resource_injective_partial`).
 -/
 import Kap.Proofs.C20Api
+import Kap.Proofs.C20Write
 namespace Kap.Props.C20
 open Kap.C20 Kap.C20.Spec
 
@@ -354,6 +355,78 @@ theorem write_checks_database (cfg : Cfg) (hextra : ∀ r ∈ cfg.extra, r.kind 
       exact allow_mayAllow acc _ 4 (hv acc hmem) (by decide) haz
     · exact allow_mayAllow acc _ 4 (hv acc hmem) (by decide) hdb
 
+/-! ### The URL parameters of a write: only `db` decides -/
+
+/-- **The resource a write is checked against is a function of the `db` parameter only**: two requests that name
+the same database are checked against the same resource, whatever their `rp`, `precision`, `consistency`, path,
+method or credentials are; and it is the database resource of that name — one element below "/database". -/
+theorem write_resource_function_of_db (r₁ r₂ : Req) (h : r₁.db = r₂.db) :
+    writeResource r₁ = writeResource r₂ ∧ writeResource r₁ = databaseResource r₁.db ∧
+    (r₁.db ≠ [] → ∃ elem, nodeOf (writeResource r₁) = some ["database".toList, elem]) := by
+  refine ⟨?_, rfl, fun hne => ⟨_, databaseResource_node r₁.db hne⟩⟩
+  unfold writeResource; rw [h]
+
+/-- **The decision of a request does not depend on `rp` nor on any parameter other than `db`**: status, served,
+written and the user let through are the same for every value of `rp` (absent, plain, with '/', "..", "../x",
+"../../api/write", …) and every list of further parameters. -/
+theorem write_decision_ignores_rp_and_params (cfg : Cfg) (fuel : Nat) (req : Req) (rp : List Char) (params : Query) :
+    serveHTTP cfg fuel { req with rp := rp, params := params } = serveHTTP cfg fuel req :=
+  serveHTTP_ignores_rp_params cfg fuel req rp params
+
+/-- … while `rp` is handed through to the points writer unchanged, next to the database that was authorised. -/
+theorem write_target_is_authorised_database (req : Req) :
+    (writeTarget req).1 = req.db ∧ (writeTarget req).2 = req.rp ∧ writeResource req = databaseResource (writeTarget req).1 :=
+  ⟨rfl, rfl, rfl⟩
+
+/-- **write_needs_database_grant_whatever_rp**: with authentication enabled, points are written — for ANY `rp` and
+any further parameters — only if one valid account holds `write` both on the API resource of the URL path and on
+the resource of the database the points go to (`writeTarget`), by the statement's own reference decision. -/
+theorem write_needs_database_grant_whatever_rp (cfg : Cfg) (hauth : cfg.requireAuth = true)
+    (hextra : ∀ r ∈ cfg.extra, r.kind = .recorder ∧ r.bypass = false) (req : Req)
+    (hv : ∀ acc ∈ validAccounts cfg.svc req.auth, ∀ g ∈ acc.grants, g.2.all validPriv = true)
+    (fuel : Nat) (rp : List Char) (params : Query)
+    (h : (serveHTTP cfg fuel { req with rp := rp, params := params }).wrote = true) :
+    ∃ acc ∈ validAccounts cfg.svc req.auth,
+      mayAllow acc (apiNodeOf req.path) pWrite = true ∧
+      mayAllow acc (databaseResource (writeTarget { req with rp := rp, params := params }).1) pWrite = true := by
+  rw [write_decision_ignores_rp_and_params] at h
+  have hw := write_checks_database cfg hextra req hv fuel h
+  unfold wroteOK at hw
+  rw [hauth] at hw
+  simp only [Bool.not_true, Bool.false_or, List.any_eq_true, Bool.and_eq_true] at hw
+  obtain ⟨acc, hmem, h1, h2⟩ := hw
+  exact ⟨acc, hmem, h1, h2⟩
+
+/-- `url.Values.Get`: when a parameter is given twice the FIRST value is the one that is both authorised and
+written to — a second `db=` (or anything else appended to the query) cannot redirect the check. -/
+theorem first_db_parameter_decides (req : Req) (db : List Char) (q₁ q₂ : Query) (h : ∀ e ∈ q₁, e.1 ≠ "db".toList) :
+    writeResource (req.withQuery (q₁ ++ ("db".toList, db) :: q₂)) = databaseResource db ∧
+    (writeTarget (req.withQuery (q₁ ++ ("db".toList, db) :: q₂))).1 = db := by
+  have : qGet (q₁ ++ ("db".toList, db) :: q₂) "db".toList = db := by
+    induction q₁ with
+    | nil => exact qGet_cons_same _ _ _
+    | cons x xs ih =>
+      obtain ⟨a, b⟩ := x
+      rw [List.cons_append, qGet_cons_other _ _ _ _ (h (a, b) (by simp))]
+      exact ih (fun e he => h e (by simp [he]))
+  exact ⟨by rw [writeResource_withQuery, this], this⟩
+
+/-- Why the check must NOT be made against a resource that has `rp` joined in (`path.Join(DatabaseResource(db), rp)`):
+the database name is one escaped element, `rp` is not — "../mine_clean" lands on another database, "../../api/write"
+on the write endpoint itself, ".." on "/database"; a user without any grant covering database `secret` would pass. -/
+theorem rp_joined_into_resource_would_widen :
+    let bob : Account := { grants := [("/api/write".toList, [4]), ("/database/mine_clean".toList, [4])] }
+    let carol : Account := { grants := [("/api".toList, [2, 4]), ("/database".toList, [4]), ("/database/secret_clean".toList, [1])] }
+    let joined (rp : String) := pathJoin2 (databaseResource "secret".toList) rp.toList
+    mayAllow bob (databaseResource "secret".toList) pWrite = false ∧
+    mayAllow carol (databaseResource "secret".toList) pWrite = false ∧
+    joined "../mine_clean" = "/database/mine_clean".toList ∧ authorizeAction bob.user (joined "../mine_clean") writePriv = .allow ∧
+    joined "../../api/write" = "/api/write".toList ∧ authorizeAction bob.user (joined "../../api/write") writePriv = .allow ∧
+    joined ".." = "/database".toList ∧ authorizeAction carol.user (joined "..") writePriv = .allow ∧
+    -- ordinary values stay below the database and change nothing
+    authorizeAction bob.user (joined "autogen") writePriv = .deny ∧ authorizeAction carol.user (joined "a/b") writePriv = .deny := by
+  decide
+
 /-- **rewritePreview re-enters the handler at most once**: two passes decide every request (more fuel changes
 nothing), and the model's "fuel exhausted" answer 508 never shows. -/
 theorem preview_depth_one (cfg : Cfg) (hextra : ∀ r ∈ cfg.extra, r.kind = .recorder ∧ r.bypass = false) (f : Nat) (req : Req) :
@@ -550,6 +623,28 @@ example :
     (serveHTTP cfg 2 { method := "GET".toList, path := "/kapacitor/v1/debug/vars".toList }).status = 401 ∧
     (serveHTTP { cfg with exposePprof := true } 2 { method := "GET".toList, path := "/kapacitor/v1/debug/vars".toList }).served = true ∧
     (serveHTTP { cfg with exposePprof := true } 2 { method := "GET".toList, path := "/kapacitor/v1/ping".toList }).status = 401 := by
+  decide
+
+-- `write_needs_database_grant_whatever_rp` / `write_decision_ignores_rp_and_params`: the three privilege tables that
+-- make the difference (grant on another database; write on /api/write only; explicit none on the target below a
+-- grant on /database), each asked with the rp values that would climb out of the database if rp were joined in
+example :
+    let bob : Account := { grants := [("/api/write".toList, [4]), ("/database/mine_clean".toList, [4])] }
+    let erin : Account := { grants := [("/api/write".toList, [4])] }
+    let carol : Account := { grants := [("/api".toList, [2, 4]), ("/database".toList, [4]), ("/database/secret_clean".toList, [1])] }
+    let cfg : Cfg := { requireAuth := true, svc := { users := [("bob".toList, "pw".toList, bob), ("erin".toList, "pw".toList, erin),
+                                                              ("carol".toList, "pw".toList, carol)] } }
+    let post (n db rp : String) := serveHTTP cfg 2 { method := "POST".toList, path := "/kapacitor/v1/write".toList, auth := { header := .basic n.toList "pw".toList }, db := db.toList, rp := rp.toList, params := [("precision".toList, "s".toList)] }
+    (∀ r ∈ cfg.extra, r.kind = .recorder ∧ r.bypass = false) ∧
+    (post "bob" "mine" "autogen").wrote = true ∧ (post "bob" "mine" "../secret_clean").wrote = true ∧
+    (post "bob" "secret" "").status = 401 ∧ (post "bob" "secret" "../mine_clean").status = 401 ∧
+    (post "bob" "secret" "../../api/write").status = 401 ∧
+    (post "erin" "secret" "../../api/write").status = 401 ∧ (post "erin" "secret" "..").status = 401 ∧
+    (post "carol" "other" "..").wrote = true ∧ (post "carol" "secret" "..").status = 401 ∧ (post "carol" "secret" "../other_clean").status = 401 ∧
+    writeTarget { method := [], path := [], db := "mine".toList, rp := "../secret_clean".toList } = ("mine".toList, "../secret_clean".toList) ∧
+    -- `first_db_parameter_decides`: db=secret&rp=..&db=mine is a write to `secret`
+    (({ method := [], path := [] } : Req).withQuery [("precision".toList, "s".toList), ("db".toList, "secret".toList), ("rp".toList, "..".toList),
+        ("db".toList, "mine".toList)]).db = "secret".toList := by
   decide
 
 -- `served_resource_below_api`: routes as AddRoute / AddPreviewRoute register them satisfy the hypothesis and ARE served
